@@ -377,6 +377,12 @@ impl OsIpcSender {
             }
         }
 
+        // The receiver's control buffer has room for MAX_FDS_IN_CMSG descriptors only;
+        // the kernel would silently discard any beyond that.
+        if fds.len() > MAX_FDS_IN_CMSG as usize {
+            return Err(UnixError::Errno(libc::EMSGSIZE));
+        }
+
         // If the message is small enough, try sending it in a single fragment.
         if data.len() <= Self::get_max_fragment_size() {
             match send_first_fragment(self.fd.0, &fds[..], data, data.len()) {
@@ -405,6 +411,10 @@ impl OsIpcSender {
         //
         // The receiver end of the channel is sent with the first fragment
         // along any other file descriptors that are to be transferred in the message.
+        // (That takes up one of the descriptor slots of the first fragment.)
+        if fds.len() >= MAX_FDS_IN_CMSG as usize {
+            return Err(UnixError::Errno(libc::EMSGSIZE));
+        }
         let (dedicated_tx, dedicated_rx) = channel()?;
         // Extract FD handle without consuming the Receiver, so the FD doesn't get closed.
         fds.push(dedicated_rx.fd.get());
